@@ -1,7 +1,7 @@
 """C01 — a script issues exactly the commands, waits and output its source says.
 
 Shape E: every program of three bounded slices (K control skeletons,
-V commands and values over four populations, X commands inside control, S loop headers that read their own variable, R routines that return out of nested loops, called from light loops and expressions) is
+V commands and values over four populations, X commands inside control, S loop headers that read their own variable, L light/group/location loops over names that differ in capitalisation, R routines that return out of nested loops, called from light loops and expressions) is
 rendered, compiled by the real parser, loaded and run on the real VM over the
 simulated LAN with a recording clock, and its event trace is compared with the
 reference interpreter's (lang/ref.py).
@@ -14,7 +14,9 @@ from ..cli import Report
 from ..lang import gen_k, gen_loops, gen_v, gen_x, harness, render
 
 POPS = {'empty': world.POP_EMPTY, 'one': world.POP_ONE,
-        'three': world.POP_THREE, 'mixed': world.POP_MIXED}
+        'three': world.POP_THREE, 'mixed': world.POP_MIXED,
+        'case': (world.Dev('Bulb', 'Kitchen', 'Up'), world.Dev('apple', 'hall', 'down'), world.Dev('Cord', 'Lounge', 'down'),
+                 world.Dev('desk', 'office', 'Up'), world.Dev('Zed', 'hall', 'Attic'))}
 
 
 def classify(o):
@@ -48,6 +50,9 @@ def _slice_worker(rank, n, slice_name, size, popname):
         gen = gen_v.programs(size, POPS[popname])
     elif slice_name == 'R':
         gen = ((0, p) for tag, p in gen_loops.returns_from_nested(POPS[popname]))
+    elif slice_name == 'L':
+        gen = ((0, p) for tag, p in gen_loops.single(POPS[popname]) if tag.split('/')[0] in
+               ('all', 'groups', 'locations') or tag.startswith('in'))
     elif slice_name == 'S':
         gen = ((0, p) for p in gen_loops.self_bound_programs(POPS[popname]))
     else:
@@ -82,11 +87,11 @@ def run(tier, seed):
     rep = Report()
     if tier == 'quick':
         plan = [('K', 6, 'one'), ('V', 3, 'three'), ('V', 2, 'empty'), ('V', 2, 'one'),
-                ('V', 2, 'mixed'), ('X', 3, 'three'), ('X', 3, 'mixed'), ('R', 0, 'three'), ('S', 0, 'three')]
+                ('V', 2, 'mixed'), ('X', 3, 'three'), ('X', 3, 'mixed'), ('R', 0, 'three'), ('S', 0, 'three'), ('L', 0, 'case')]
     else:
         plan = [('K', 7, 'one'), ('V', 3, 'three'), ('V', 3, 'empty'), ('V', 3, 'one'),
                 ('V', 3, 'mixed'), ('X', 4, 'three'), ('X', 4, 'mixed'), ('X', 3, 'one'), ('X', 3, 'empty'),
-                ('R', 0, 'three'), ('R', 0, 'one'), ('S', 0, 'three'), ('S', 0, 'one')]
+                ('R', 0, 'three'), ('R', 0, 'one'), ('S', 0, 'three'), ('S', 0, 'one'), ('L', 0, 'case')]
     tot = dict(programs=0, ok=0, undefined=0, refcap=0, steps=0, events=0)
     traces = set()
     samples = []
